@@ -13,6 +13,7 @@ import json
 import uuid
 
 import env
+import fresh
 import gen
 import ops
 import refavro
@@ -46,12 +47,13 @@ COMPONENTS = {
 }
 PROBES = ["both_in_read_decimal", "both_in_parse", "both_in_writer_dump", "both_in_validate",
           "family_decimal", "family_logical", "family_general", "family_parse", "family_json", "family_resolve",
-          "three_tasks", "strategy_pct", "strategy_uniform", "strategy_sticky"]
+          "three_tasks", "strategy_pct", "strategy_uniform", "strategy_sticky", "fresh_process_schedule"]
 
 
 def setup():
     env.load()
     sched.instrument(env.REPO)
+    fresh.server()   # pristine: forked before this process ever calls fastavro
 
 
 UTC = datetime.timezone.utc
@@ -278,9 +280,46 @@ def _both_in(sc, names):
     return False
 
 
+def fresh_sched_job(prefix, sseed, strategy):
+    """Runs inside a fresh fork of the pristine server: rebuild the scenario from the
+    recorded choice prefix and execute the scheduled run there, so that one-time lazy
+    initialisation inside fastavro (a table built on first use, ...) happens UNDER the
+    schedule instead of having been done by earlier runs of this worker."""
+    from choices import Choices
+    F = common.fa()
+    ch = Choices(recorded=prefix)
+    fam, E, tasks = build(ch, F)
+    try:
+        sc, res = _run_sched(F, E, tasks, sseed, tuple(strategy))
+    except (sched.Deadlock, sched.StepCap, sched.Stall) as e:
+        return {"abort": type(e).__name__, "what": str(e)}
+    out = {}
+    for k, v in res.items():
+        out[k] = (v[0], v[1] if v[0] == "ok" else repr(v[1]))
+    return {"tasks": json.dumps([[ops.describe(d) for d in lst] for lst in tasks], sort_keys=True, default=str),
+            "res": out, "sig": sc.signature(), "step": sc.step, "switches": [list(x) for x in sc.switches],
+            "pairs": [list(x) for x in sc.pairs], "decisions": [list(x) for x in sc.decisions]}
+
+
+class _FreshSched:
+    """Quacks like the bits of Scheduler that run_one reads afterwards."""
+
+    def __init__(self, d):
+        self.step = d["step"]
+        self.switches = [tuple(x) for x in d["switches"]]
+        self.pairs = {tuple(x) for x in d["pairs"]}
+        self.decisions = [tuple(x) for x in d["decisions"]]
+        self._sig = d["sig"]
+
+    def signature(self):
+        return self._sig
+
+
 def run_one(ch, ctx):
+    srv = fresh.server()
     F = common.fa()
     built = build(ch, F)
+    prefix = list(ch.record)
     if built is None:
         from runner import Discard
         raise Discard("setup_op_failed")
@@ -312,10 +351,21 @@ def run_one(ch, ctx):
     else:
         strategy = ("pct", 1 + ch.draw(3), max(2, steps))
         ctx.probe("strategy_pct")
-    try:
-        sc, res = _run_sched(F, E, tasks, sseed, strategy)
-    except (sched.Deadlock, sched.StepCap, sched.Stall) as e:
-        raise Violation("liveness", type(e).__name__, detail=str(e), scenario=desc)
+    in_fresh = ch.chance(20)
+    if in_fresh:
+        ctx.probe("fresh_process_schedule")
+        d = srv.call("props.c18", "fresh_sched_job", (prefix, sseed, list(strategy)))
+        if "abort" in d:
+            raise Violation("liveness", d["abort"], detail=d["what"], scenario=desc)
+        if d["tasks"] != json.dumps(desc["tasks"], sort_keys=True, default=str):
+            raise RuntimeError("harness error: the fresh process rebuilt a different scenario from the choice prefix")
+        sc = _FreshSched(d)
+        res = d["res"]
+    else:
+        try:
+            sc, res = _run_sched(F, E, tasks, sseed, strategy)
+        except (sched.Deadlock, sched.StepCap, sched.Stall) as e:
+            raise Violation("liveness", type(e).__name__, detail=str(e), scenario=desc)
     ctx.evals += 1
     ctx.steps += sc.step
     ctx.fault("preempt", len(sc.switches))
@@ -337,7 +387,7 @@ def run_one(ch, ctx):
         raise Violation("interleaving", "differs-from-solo",
                         detail={"task": t, "op_index": j, "op": ops.describe(tasks[t][j]) if j is not None else None,
                                 "solo": bad[2], "under_schedule": bad[3], "strategy": list(strategy),
-                                "switches": len(sc.switches)},
+                                "switches": len(sc.switches), "scheduled_run_in_fresh_process": in_fresh},
                         sig=f"interleaving:differs-from-solo:{fam}", scenario=desc)
     inside = sum(1 for s in sc.switches if ":" in str(s[2]))
     if inside >= 1:
